@@ -21,12 +21,16 @@ func C18(c *core.Ctx) {
 		"B-ABORT: in the one function that calls Generator.DoFile, no may-fail step (flag parse, generator.New, DoFile) is reachable after an " +
 		"output effect (stdout write, OpenFile with write flags, MkdirAll); failing exits are dominated by a stderr diagnostic and use a " +
 		"non-zero constant; os.Exit(0) lies after the DoFile loop. B-WRITE: no output effect and no use of os.Stdout anywhere else in the module. " +
-		"Decided: these structural necessary conditions. Not decided: termination, panics inside libraries, I/O failures between two output files."
+		"A-LOUD (Engine A): the generator is interpreted abstractly on valid schema families with exactly one ungeneratable or malformed element injected (null sub-schema in properties / allOf / anyOf / " +
+		"definitions, empty enum, non-primitive enum value, unknown type, reference to a missing definition, reference that is not a definition pointer) as a property, an array item, inside a nested object, " +
+		"inside a definition, inside an anyOf branch and inside an allOf branch: in every world the generator must RETURN AN ERROR — an interpreted panic (nil dereference, index out of range) or a silent success " +
+		"is a violation. Decided: these structural necessary conditions. Not decided: termination, panics inside libraries, I/O failures between two output files, malformed bytes (decoding is encoding/json's)."
 	c.Trust("encoding/json, cobra, os: behave as documented", "os.Exit/log.Fatal/panic are the only ways to not return")
 	a := engb.New(c.Prog)
 	ruleBErr(c, a, nil)
 	c.Floor("B-ERR", c.Counts["B-ERR:sites"], 140, "error-returning call sites")
 	ruleAbort(c, a)
+	ruleHostile(c)
 	controls(c, "C18")
 }
 
